@@ -350,10 +350,11 @@ class SVGLexicalParser:
             if cmd is None:
                 return
             elif cmd == "z" or cmd == "Z":
-                if self._more():
-                    raise ValueError
                 self.parser.closed(relative=cmd.islower())
+                more = self._more()
                 self.inline_close = None
+                if more:
+                    raise ValueError  # numbers after a close; the close itself is valid and kept.
                 continue
             elif cmd == "m":
                 if not self._more():
